@@ -347,7 +347,7 @@ pub fn run(ctx: &Ctx) -> i32 {
 
     // (3) other reader types: Cursor<Vec<u8>>, &[u8], file-backed
     if ctx.wants_family("reader-types") {
-        ctx.family("reader-types", targets.len() as u64 * 4, "Cursor<Vec<u8>>, &[u8], &mut &[u8] and AsepriteFile::read_file on a temporary file", true);
+        ctx.family("reader-types", targets.len() as u64 * 4 + 16, "Cursor<Vec<u8>>, &[u8], &mut &[u8] and AsepriteFile::read_file on a temporary file; read_file on four equivalent encodings of each base (3 bytes after the last frame, header size field 0 / 2^32-1 / length+1)", true);
         for t in &targets {
             for k in 0..4 {
                 let case = || format!("{} reader={}", t.name, ["cursor", "slice", "mut-slice", "read_file"][k]);
@@ -375,6 +375,38 @@ pub fn run(ctx: &Ctx) -> i32 {
                     Outcome::Ok(_) => ctx.violation(Violation { family: "reader-types".into(), case: case(), sig: "result-differs".into(), detail: "sprite differs".into(), bytes: Some(t.bytes.clone()), extra: json!({}) }),
                     Outcome::Err(e) => ctx.violation(Violation { family: "reader-types".into(), case: case(), sig: format!("spurious-error:{}", err_variant(&e)), detail: format!("{}", e), bytes: Some(t.bytes.clone()), extra: json!({}) }),
                     Outcome::Panic(m) => ctx.violation(Violation { family: "reader-types".into(), case: case(), sig: format!("panic:{}", sig_of(&m)), detail: m, bytes: Some(t.bytes.clone()), extra: json!({}) }),
+                }
+            }
+        }
+        // read_file on encodings whose header size field disagrees with the real length / with bytes after the last frame
+        for (bn, base) in gen::bases() {
+            for (vi, variant) in ["tail-3", "size-0", "size-max", "size+1"].iter().enumerate() {
+                let case = || format!("{} read_file {}", bn, variant);
+                if !ctx.wants("reader-types", &case) {
+                    continue;
+                }
+                let mut f = base.clone();
+                match vi {
+                    0 => f.tail = vec![1, 2, 3],
+                    1 => f.header.file_size = Some(0),
+                    2 => f.header.file_size = Some(u32::MAX),
+                    _ => f.header.file_size = Some(f.encode().len() as u32 + 1),
+                }
+                let canon = match load(&base.encode()) {
+                    Loaded::Ok(x) => digest_of(&x, &want),
+                    _ => continue,
+                };
+                let bytes = f.encode();
+                let p = std::env::temp_dir().join(format!("mc-c14-{}-{}-{}.aseprite", std::process::id(), bn, vi));
+                std::fs::write(&p, &bytes).unwrap();
+                let r = catch_unwind(AssertUnwindSafe(|| AsepriteFile::read_file(&p)));
+                let _ = std::fs::remove_file(&p);
+                ctx.eval(1);
+                match classify(r, &want) {
+                    Outcome::Ok(d) if d == canon => ctx.outcome(hash64(&("ok-file", bn, vi))),
+                    Outcome::Ok(_) => ctx.violation(Violation { family: "reader-types".into(), case: case(), sig: "result-differs".into(), detail: "sprite differs".into(), bytes: Some(bytes), extra: json!({}) }),
+                    Outcome::Err(e) => ctx.violation(Violation { family: "reader-types".into(), case: case(), sig: format!("spurious-error:{}", err_variant(&e)), detail: format!("{}", e), bytes: Some(bytes), extra: json!({}) }),
+                    Outcome::Panic(m) => ctx.violation(Violation { family: "reader-types".into(), case: case(), sig: format!("panic:{}", sig_of(&m)), detail: m, bytes: Some(bytes), extra: json!({}) }),
                 }
             }
         }
